@@ -5,8 +5,12 @@ import os
 import time
 
 ROOT = os.path.dirname(os.path.dirname(os.path.abspath(__file__)))
-EVIDENCE_DIR = os.path.join(ROOT, "evidence")
-REPLAY_DIR = os.path.join(ROOT, "replays")
+_ON_REPO = os.path.realpath(os.environ.get("NV_REPO", "/repo")) == "/repo"
+# runs against scratch copies (mutation validation) never touch the evidence
+EVIDENCE_DIR = os.path.join(ROOT, "evidence" if _ON_REPO
+                            else ".scratch/evidence")
+REPLAY_DIR = os.path.join(ROOT, "replays" if _ON_REPO
+                          else ".scratch/replays")
 KNOWN_FILE = os.path.join(ROOT, "known_findings.json")
 SCHEMA = "/root/.vp/EVIDENCE.schema.json"
 SCHEMA_LOCAL = os.path.join(ROOT, "tools", "EVIDENCE.schema.json")
